@@ -17,6 +17,9 @@ pub struct Revs {
 
 //@ pub open spec fn revs_view(r: Revs) -> Seq<nat> { seq![r.r0 as nat, r.r1 as nat, r.r2 as nat] }
 
+//@ob id=R-REF-1 kind=R props=C02,C01 fn=Runtime::new_revision
+//@ pre: r0 < usize::MAX
+//@ post: (Verus side) ref_new_revision == apply(_, NewRev); Kani side K-RT-1 proves Runtime::new_revision == ref_new_revision
 /// `Runtime::new_revision` on the revision vector.
 pub fn ref_new_revision(r: Revs) -> Revs //-
 //@ pub fn ref_new_revision(r: Revs) -> (out: Revs)
@@ -26,6 +29,9 @@ pub fn ref_new_revision(r: Revs) -> Revs //-
     Revs { r0: r.r0 + 1, r1: r.r1, r2: r.r2 }
 }
 
+//@ob id=R-REF-2 kind=R props=C02,C01 fn=Runtime::report_tracked_write
+//@ pre: d in {LOW, MEDIUM, HIGH}
+//@ post: (Verus side) ref_write == apply(_, Write(d)); Kani side K-RT-2 proves Runtime::report_tracked_write == ref_write
 /// `Runtime::report_tracked_write(d)` for `d` in 0..=2 (LOW, MEDIUM, HIGH).
 pub fn ref_write(r: Revs, d: u8) -> Revs //-
 //@ pub fn ref_write(r: Revs, d: u8) -> (out: Revs)
@@ -35,6 +41,9 @@ pub fn ref_write(r: Revs, d: u8) -> Revs //-
     Revs { r0: r.r0, r1: if d >= 1 { r.r0 } else { r.r1 }, r2: if d >= 2 { r.r0 } else { r.r2 } }
 }
 
+//@ob id=R-REF-3 kind=R props=C02,C01,C04 fn=Runtime::last_changed_revision
+//@ pre: d in 0..=3
+//@ post: (Verus side) ref_last_changed == last_changed spec; Kani side K-RT-3 proves Runtime::last_changed_revision == ref_last_changed
 /// `Runtime::last_changed_revision(d)` for `d` in 0..=3 (3 = NEVER_CHANGE).
 pub fn ref_last_changed(r: Revs, d: u8) -> usize //-
 //@ pub fn ref_last_changed(r: Revs, d: u8) -> (out: usize)
@@ -52,6 +61,9 @@ pub fn ref_last_changed(r: Revs, d: u8) -> usize //-
     }
 }
 
+//@ob id=R-REF-4 kind=R props=C02,C01,C03,C04 fn=MemoHeader::shallow_verify_memo
+//@ pre: d in 0..=3
+//@ post: (Verus side) ref_shallow == (verified_at == current || last_changed(d) <= verified_at); Kani side K-MCA-1/K-MCA-2 prove shallow_verify_memo(..).yes() == ref_shallow
 /// `shallow_verify_memo`: may a memo verified at `verified_at` with durability `d` be accepted
 /// without looking at its inputs?
 pub fn ref_shallow(r: Revs, verified_at: usize, d: u8) -> bool //-
